@@ -151,6 +151,20 @@ func corpus(e *ev.Env) {
 					{present: "@first", ops: []op{{K: "byid", Tgt: "@first"}, k("save")}}, // old id: fresh
 				})
 			})
+			// looking the session up twice per request (Release, Store.Get again) and saving it must
+			// not move the absolute deadline
+			e.Corpus("absolute-timeout-reget-"+name, func(c *ev.Case) {
+				cfg := base
+				cfg.Idle, cfg.Abs = 3*sec, 4*sec
+				again := []op{get("k0"), k("release"), k("reget"), get("k0"), k("save")}
+				runFixed(e, c, cfg, 1, []cstep{
+					{ops: []op{set("k0", "v0.1"), k("save")}},
+					{adv: 1400 * ms, present: "@jar", ops: again},
+					{adv: 1400 * ms, present: "@jar", ops: again},                      // 2.8 s
+					{adv: 1400 * ms, present: "@jar", ops: []op{get("k0"), k("save")}}, // 4.2 s: gone
+					{present: "@first", ops: []op{{K: "byid", Tgt: "@first"}, k("save")}},
+				})
+			})
 			// GetByID past the absolute deadline (entry still within its idle timeout)
 			e.Corpus("absolute-timeout-getbyid-"+name, func(c *ev.Case) {
 				cfg := base
@@ -172,6 +186,25 @@ func corpus(e *ev.Env) {
 					{adv: 3100 * ms, mw: true, present: "@jar", ops: []op{get("k0")}},
 					{present: "@first", ops: []op{{K: "byid", Tgt: "@first"}}},
 				})
+			})
+			// timeouts below one second (Config.IdleTimeout and SetIdleTimeout): whatever the
+			// storage rounds them to, seconds later the session is over
+			e.Corpus("subsecond-idle-timeout-"+name, func(c *ev.Case) {
+				for _, d := range []time.Duration{500 * ms, ms, 999 * ms} {
+					cfg := base
+					cfg.Idle = d
+					runFixed(e, c, cfg, 1, []cstep{
+						{mw: true, ops: []op{set("k0", "v0.1")}},
+						{adv: 3400 * ms, mw: true, present: "@jar", ops: []op{get("k0")}},
+						{present: "@first", ops: []op{{K: "byid", Tgt: "@first"}}},
+					})
+					cfg.Idle = 3 * sec
+					runFixed(e, c, cfg, 1, []cstep{
+						{ops: []op{set("k0", "v0.1"), {K: "idle", Dur: d}, k("save")}},
+						{adv: 3400 * ms, ops: []op{{K: "byid", Tgt: "@jar"}}},
+						{present: "@jar", ops: []op{get("k0"), k("save")}},
+					})
+				}
 			})
 			// forged ids are never adopted
 			e.Corpus("forged-id-"+name, func(c *ev.Case) {
